@@ -261,8 +261,15 @@ def gen_c13(ctx, focus="C13"):
                                                   {"kind": "header", "text": "4 0"}, {"kind": "isdir"}, {"kind": "read", "k": rng.range(1, 2)}, {"kind": "chunk", "n": rng.choice([1, 64])}])
             shape = rng.below(5)
             ops = []
-            if rng.chance(1, 4):
+            sd = rng.below(8)
+            search_op = None
+            if sd == 0:
                 ops.append({"op": "search_dir"})
+            elif sd == 1:
+                ops.append({"op": "search_path", "before": rng.range(0, 2), "after": rng.range(0, 2)})
+            elif sd in (2, 3):
+                # registrations by bare file name first, the directory becomes known only later (loading is lazy)
+                search_op = {"op": "search_dir"} if sd == 2 else {"op": "search_path", "before": rng.range(1, 2), "after": rng.range(1, 2)}
             if shape == 0:          # everything registered before the first query: one lazy batch
                 ops += _regs(rng, order, style)
             elif shape == 1:        # one at a time, verified after each
@@ -293,7 +300,13 @@ def gen_c13(ctx, focus="C13"):
             ops.append({"op": "verify", "sweep": focus == "C20" or rng.chance(1, 5), "lookups": True})
             if focus == "C20":
                 ops.append({"op": "uniq", "seed": rng.below(1 << 30)})
-            plans.append({"id": i, "focus": focus, "build": "san" if (not thorough or i % 4) else "rel", "universe": u, "faults": faults, "ops": ops})
+            plan = {"id": i, "focus": focus, "build": "san" if (not thorough or i % 4) else "rel", "universe": u, "faults": faults, "ops": ops}
+            if search_op is not None:
+                # just before the first operation that queries the database
+                first_q = next((j for j, o in enumerate(ops) if o["op"] not in ("reg_db", "reg_mod", "flag")), len(ops))
+                ops.insert(first_q, search_op)
+                plan["relative"] = True
+            plans.append(plan)
             i += 1
     return plans
 
